@@ -87,6 +87,14 @@ protected:
         return Action::Skip;
     }
 
+    virtual Action visitExtPSY_TemplateDeclaration(const ExtPSY_TemplateDeclarationSyntax* node) override
+    {
+        traverseDeclaration(node);
+        terminal(node->templateToken(), node);
+        nonterminal(node->declaration());
+        return Action::Skip;
+    }
+
     void traverseTagDeclaration(const TagDeclarationSyntax* node)
     {
         traverseDeclaration(node);
@@ -254,6 +262,15 @@ protected:
         terminal(node->atomicKeyword(), node);
         terminal(node->openParenthesisToken(), node);
         nonterminal(node->typeName());
+        terminal(node->closeParenthesisToken(), node);
+        return Action::Skip;
+    }
+
+    virtual Action visitExtPSY_QuantifiedTypeSpecifier(const ExtPSY_QuantifiedTypeSpecifierSyntax* node) override
+    {
+        terminal(node->quantifierToken(), node);
+        terminal(node->openParenthesisToken(), node);
+        terminal(node->identifierToken(), node);
         terminal(node->closeParenthesisToken(), node);
         return Action::Skip;
     }
